@@ -17,36 +17,50 @@ EXTENDS Integers
 TMin(a, b) == IF a < b THEN a ELSE b
 TMax(a, b) == IF a > b THEN a ELSE b
 
+\* (type annotations for Apalache - TimerInd.tla; comments as far as TLC is concerned)
+\* @typeAlias: counter = { run: Bool, cnt: Int, occ: Bool, el: Int };
+Timer_typedefs == TRUE
+
+\* @type: $counter;
 CNew == [run |-> FALSE, cnt |-> 0, occ |-> FALSE, el |-> 0]
 
 \* update(): count every full period that has elapsed         timer.rs:43-53
+\* @type: ($counter, Int, Int) => $counter;
 CUpdate(c, TO, MX) ==
   IF ~c.run THEN c
   ELSE LET k == c.el \div TO
        IN [run |-> TRUE, cnt |-> TMin(c.cnt + k, MX), occ |-> c.occ \/ k > 0, el |-> c.el % TO]
 
 \* restart(): update, start now, clear `occurred`, KEEP the count   :26-31
+\* @type: ($counter, Int, Int) => $counter;
 CRestart(c, TO, MX) ==
   LET u == CUpdate(c, TO, MX) IN [run |-> TRUE, cnt |-> u.cnt, occ |-> FALSE, el |-> 0]
 
 \* reset(): start now, clear `occurred`, count = 0                  :36-41
+\* @type: ($counter) => $counter;
 CReset(c) == [run |-> TRUE, cnt |-> 0, occ |-> FALSE, el |-> 0]
 
 \* pause(): update, stop                                            :55-58
+\* @type: ($counter, Int, Int) => $counter;
 CPause(c, TO, MX) ==
   LET u == CUpdate(c, TO, MX) IN [run |-> FALSE, cnt |-> u.cnt, occ |-> u.occ, el |-> 0]
 
 \* start() on a freshly created counter (the delayed-NAK timers)    :60-62
+\* @type: $counter;
 CStarted == [run |-> TRUE, cnt |-> 0, occ |-> FALSE, el |-> 0]
 
 \* limit_reached() / timeout_occurred(): both update first          :64-72
+\* @type: ($counter, Int, Int) => Bool;
 CLimit(c, TO, MX) == CUpdate(c, TO, MX).cnt = MX
+\* @type: ($counter, Int, Int) => Bool;
 COccurred(c, TO, MX) == CUpdate(c, TO, MX).occ
 
 \* until_timeout() of one counter (does not update)                 :74-82
+\* @type: ($counter, Int) => Int;
 CUntil(c, TO) == TMax(TO - c.el, 0)
 
 \* time passes
+\* @type: ($counter, Int) => $counter;
 CTick(c, d) == IF c.run THEN [c EXCEPT !.el = c.el + d] ELSE c
 
 \* "no timer": Duration::MAX
